@@ -3,7 +3,7 @@
    Tidy/ErrProofs.v, Tidy/FixProofs.v, Tidy/Witness.v.  `compile(output)` itself, the renderer (C11) and the
    statement splitter (C10) are tied by the correspondence and the oracle of harness/c03.py. *)
 From Coq Require Import String NArith List Bool Arith.
-From Verif Require Import Base.Chars Base.StrX Tidy.Blocks Tidy.Fix Tidy.FixProofs Tidy.ErrProofs Tidy.Witness.
+From Verif Require Import Base.Chars Base.StrX Tidy.Blocks Tidy.Fix Tidy.FixProofs Tidy.ErrProofs Tidy.FutureProofs Tidy.Witness.
 Import ListNotations.
 
 (* no_internal_error.  Full statement (every configuration) is FALSE on the unchanged tree: F23
@@ -111,6 +111,21 @@ Theorem C03_future_joins_future_block : forall c bs imp L b,
 Proof. exact future_joins_future_block. Qed.
 Print Assumptions C03_future_joins_future_block.
 
+(* F46: with the repair the joined block holds a from-__future__ import (a compiler directive); on the tree before
+   it a plain `import __future__` after code was enough (witness) *)
+Theorem C03_future_joins_from_future_block : forall c bs imp L b,
+  f46 c = true -> is_future imp = true -> select_block c bs imp L = Ok (Some b) ->
+  exists o, In o (ib_imps b) /\ is_future o = true.
+Proof. exact future_joins_from_future_block. Qed.
+Print Assumptions C03_future_joins_from_future_block.
+
+Theorem C03_future_first_refuted_F46 :
+  is_future i_futmod = false /\
+  select_block unchanged w46_blocks i_div None = Ok (Some (mkIB 1 2 true 3 true [i_futmod])) /\
+  select_block repaired w46_blocks i_div None = Ok None.
+Proof. exact F46_refuted. Qed.
+Print Assumptions C03_future_first_refuted_F46.
+
 Theorem C03_future_first_new_block : forall c bs bs' nb,
   insert_new c bs = Ok (bs', nb) ->
   exists pro rest, bs' = (pro ++ Imps nb :: sep_block :: rest)%list /\ iblocks pro = [] /\
@@ -136,6 +151,24 @@ Theorem C03_future_first_refuted_F40 :
                       exists s, In s (stmts_of pro) /\ is_bytes s = true.
 Proof. exact F40_refuted. Qed.
 Print Assumptions C03_future_first_refuted_F40.
+
+(* future_first over the whole driver (F9, F40, F46 repaired), on abstract blocks: if only prologue statements
+   (comments, blanks, at most one str literal, no bytes literal) stand in front of every import block that holds a
+   from-__future__ import in the block list fix_unused_and_missing_imports edits, then the same holds of the block
+   list it prints - for every analysis result, database, mandatory list, flag combination, and whichever of the other
+   repairs are present.  `future_first bs` = `ffm nomark [] bs` (Tidy/FutureProofs.v).  Not part of this statement (see
+   design.d/C03.md): that no import block WITHOUT from-__future__ imports stands in front of one with them, and that
+   the renderer prints the __future__ statements of a block first (C11). *)
+Theorem C03_future_first_tidy : forall c fl known mand bs ms us bs' log,
+  f9 c = true -> f40 c = true -> f46 c = true ->
+  ids_ok bs -> future_first bs ->
+  fix_blocks c fl known mand bs ms us = Ok (bs', log) -> future_first bs'.
+Proof. exact future_first_tidy. Qed.
+Print Assumptions C03_future_first_tidy.
+
+Example C03_future_first_tidy_nonvacuous :
+  ids_ok wff_blocks /\ future_first wff_blocks /\ fut_block (mkIB 1 2 true 3 true [mkImp [s_future; [100%N]] [100%N]]).
+Proof. exact future_first_nonvacuous. Qed.
 
 (* the provable part of the tool-level fixed point.  Full statement  tidy (tidy x) = tidy x  is refuted on the
    real tool by C03:F34 (`class F:\n    d.x\n    (lambda b: {f for e in d})\nimport keyword as d` with
